@@ -353,3 +353,65 @@ theorem slbRun_nodup : ∀ (ops : List SlbOp) (s : Slb), (s.backends.map (·.nam
       fun c hc => hops c (by simp [hc])
 
 end BfeVerif.C14
+
+/-! ### HostTableConfCheck is a ∀ over the two maps: its verdict does not depend on the enumeration order -/
+namespace BfeVerif.C14
+open BfeVerif.C13
+
+/-- the conditions `HostTableConfCheck` establishes, written without any order -/
+def HostCheckSpec (c : HostFile) : Prop :=
+  ∃ v hosts tags, c.version = some v ∧ c.hosts = some hosts ∧ c.hostTags = some tags ∧
+    (∀ kv ∈ tags, kv.2.isSome = true) ∧
+    (∀ kv ∈ hosts, kv.2.isSome = true ∧ ∃ pt ∈ tags, kv.1 ∈ pt.2.getD []) ∧
+    (∀ dp, c.defaultProduct = some dp → ∃ pt ∈ tags, pt.1 = dp)
+
+theorem contains_allValues (tags : List (String × Option (List String))) (x : String) :
+    (allValues tags).contains x = true ↔ ∃ pt ∈ tags, x ∈ pt.2.getD [] := by
+  simp [allValues, List.mem_flatMap]
+
+theorem mapHas_iff {β : Type} (m : List (String × β)) (k : String) : mapHas m k = true ↔ ∃ kv ∈ m, kv.1 = k := by
+  simp [mapHas]
+
+theorem hostCheck_ok_iff (c : HostFile) : hostCheck c = .ok () ↔ HostCheckSpec c := by
+  constructor
+  · intro h
+    obtain ⟨v, hosts, tags, hv, hh, ht, h1, h2, h3⟩ := hostCheck_ok h
+    refine ⟨v, hosts, tags, hv, hh, ht, h1, fun kv hkv => ⟨(h2 kv hkv).1, ?_⟩, fun dp hdp => (mapHas_iff tags dp).mp (h3 dp hdp)⟩
+    have := (h2 kv hkv).2
+    rw [tagListed_eq kv.1 tags h1] at this
+    injection this with this
+    exact (contains_allValues tags kv.1).mp this
+  · rintro ⟨v, hosts, tags, hv, hh, ht, h1, h2, h3⟩
+    unfold hostCheck
+    simp only [hv, hh, ht]
+    rw [Res.bind_ok_unit]
+    refine ⟨(forAllM_ok_iff _).mpr fun kv hkv => ?_, ?_⟩
+    · rw [failIf_ok_iff]; have := h1 kv hkv; cases hk : kv.2 <;> simp_all
+    · rw [Res.bind_ok_unit]
+      refine ⟨(forAllM_ok_iff _).mpr fun kv hkv => ?_, ?_⟩
+      · rw [Res.bind_ok_unit]
+        refine ⟨?_, ?_⟩
+        · rw [failIf_ok_iff]; have := (h2 kv hkv).1; cases hk : kv.2 <;> simp_all
+        · rw [tagListed_eq kv.1 tags h1]
+          simp only [Res.bind, failIf_ok_iff, Bool.not_eq_false']
+          exact (contains_allValues tags kv.1).mpr (h2 kv hkv).2
+      · cases hd : c.defaultProduct with
+        | none => rfl
+        | some dp =>
+          simp only [failIf_ok_iff, Bool.not_eq_false']
+          exact (mapHas_iff tags dp).mpr (h3 dp hd)
+
+theorem hostCheckSpec_perm (f : HostFile) (hosts hosts' tags tags' : List (String × Option (List String)))
+    (hp : hosts.Perm hosts') (tp : tags.Perm tags')
+    (h : HostCheckSpec { f with hosts := some hosts, hostTags := some tags }) :
+    HostCheckSpec { f with hosts := some hosts', hostTags := some tags' } := by
+  obtain ⟨v, hs, ts, hv, hh, ht, h1, h2, h3⟩ := h
+  simp only [Option.some.injEq] at hh ht
+  subst hh; subst ht
+  refine ⟨v, hosts', tags', hv, rfl, rfl, fun kv hkv => h1 kv (tp.mem_iff.mpr hkv), fun kv hkv => ?_, fun dp hdp => ?_⟩
+  · obtain ⟨a, pt, hpt, hin⟩ := h2 kv (hp.mem_iff.mpr hkv)
+    exact ⟨a, pt, tp.mem_iff.mp hpt, hin⟩
+  · obtain ⟨pt, hpt, e⟩ := h3 dp hdp
+    exact ⟨pt, tp.mem_iff.mp hpt, e⟩
+
+end BfeVerif.C14
